@@ -806,6 +806,10 @@ func (p *Prog) VerifyFunc(fn *ssa.Function) *FuncVC {
 			// number of yields of the function's range-over-func loop that carried a non-nil error
 			re.vars["yielderrs"] = sval{t: c.rfErrsFinal, sort: "Int", gt: types.Typ[types.Int]}
 		}
+		for _, gv := range ct.RetGiven {
+			c.assume(implies(r.cond, re.tr(gv.E).t))
+			c.used["definition:"+shortFn(fn.String())+": (at return) "+gv.Src] = true
+		}
 		for i, en := range ct.Ensures {
 			g := re.tr(en.E)
 			lbl := fmt.Sprint(i)
